@@ -137,7 +137,9 @@ fn hostile_mod(shadow: &str, items: &str, name: &str) -> String {
 // ------------------------------------------------------------------------------------------------
 // (B) behaviour templates: (label, items, driver macro body using `$m::`), the driver returns a String
 
-const TEMPLATES: [(&str, &str, &str); 22] = [
+pub const TEMPLATES: [(&str, &str, &str); 23] = [
+    ("Mul_forward_enum", "#[derive(derive_more::Mul, Debug)] #[mul(forward)] pub enum E { Alpha(U), Beta { a: U }, Gamma }",
+     "{ let r = |a: $m::E, b: $m::E| format!(\"{:?}\", (a * b).map_err(|e| e.to_string())); format!(\"{}|{}|{}\", r($m::E::Alpha(U(2)), $m::E::Alpha(U(3))), r($m::E::Alpha(U(1)), $m::E::Beta { a: U(2) }), r($m::E::Gamma, $m::E::Gamma)) }"),
     ("Unwrap", "#[derive(derive_more::Unwrap, Debug)] #[unwrap(owned, ref, ref_mut)] pub enum E { Alpha(U), Beta, r#Type(U, U) }",
      "{ let a = format!(\"{:?}\", crate::__catch(|| $m::E::Beta.unwrap_alpha())); let b = format!(\"{:?}\", crate::__catch(|| $m::E::Alpha(U(1)).unwrap_alpha())); let c = format!(\"{:?}\", crate::__catch(|| { let mut v = $m::E::Beta; let _ = v.unwrap_type_mut(); })); format!(\"{a}|{b}|{c}\") }"),
     ("TryUnwrap", "#[derive(derive_more::TryUnwrap, Debug)] #[try_unwrap(owned, ref, ref_mut)] pub enum E { Alpha(U), Beta, r#Type(U, U) }",
@@ -264,7 +266,7 @@ pub fn prop() -> DiceProp {
         build,
         fixed,
         classify,
-        rule: "pairs (friendly module, `#[no_implicit_prelude]` hostile module with a shadow set) of (A) items from the C01 generator (all 50 derives x shapes x generics x documented attributes) and (B) 22 behaviour templates per derive family x 7 shadow sets (none = pure no-prelude; local types Result/Option/String/Vec/Box; local fns/consts Ok/Err/Some/None; local traits Debug/Display/From/...; local macro_rules panic/write/format_args/matches/stringify/... that turn a capture into a compile error; silently capturing macros; glob-imported enum variants named Ok/Err/Some/None); oracle: the hostile copy compiles whenever the friendly one does and the driver's observation string (formatting results, panics, error texts, sources, parses) is identical in both; non-trivial = every case (the hostile scope always lacks the prelude); distinct by program text".into(),
+        rule: "pairs (friendly module, `#[no_implicit_prelude]` hostile module with a shadow set) of (A) items from the C01 generator (all 50 derives x shapes x generics x documented attributes) and (B) 23 behaviour templates per derive family x 7 shadow sets (none = pure no-prelude; local types Result/Option/String/Vec/Box; local fns/consts Ok/Err/Some/None; local traits Debug/Display/From/...; local macro_rules panic/write/format_args/matches/stringify/... that turn a capture into a compile error; silently capturing macros; glob-imported enum variants named Ok/Err/Some/None); oracle: the hostile copy compiles whenever the friendly one does and the driver's observation string (formatting results, panics, error texts, sources, parses) is identical in both; non-trivial = every case (the hostile scope always lacks the prelude); distinct by program text".into(),
         assumptions: vec!["user tokens of the generated items are written with absolute paths in the hostile module (token-level rewrite), so only tokens produced by the expansion can depend on the scope".into()],
         // behaviour templates are a fixed set of 22 x 7 programs (all of them run in round 0), so their share shrinks with the tier
         floors: vec![("kind=behaviour".into(), 0.003), ("shadow=macros".into(), 0.08), ("shadow=none".into(), 0.08), ("shadow=types".into(), 0.08), ("shadow=values".into(), 0.08), ("shadow=traits".into(), 0.08)],
